@@ -211,3 +211,50 @@ def lstsq_plane(rows, cols, z):
     A = np.stack([np.ones_like(rows, dtype=float), np.asarray(rows, float), np.asarray(cols, float)], 1)
     sol = np.linalg.lstsq(A, np.asarray(z, float), rcond=None)[0]
     return sol
+
+
+# ---------------------------------------------------------------------------
+# C02 / C03 / C04 / C09: unitary Fraunhofer sum of fields on the infinite plane
+
+def fraunhofer(fields, ar, ac, u, v, points=False):
+    """F(u,v) = sqrt|ar*ac| * sum_k sum_xy data_k[x,y] exp(-2 pi i (ar x u + ac y v)) with x, y the
+    integer plane coordinates (row/col index - floor(n/2) + offset) of every sample and u, v real
+    output coordinates relative to the optical axis.
+    points=False: u (rows) x v (cols) grid;  points=True: paired samples (u[i], v[i])."""
+    u = np.asarray(u, dtype=LD)
+    v = np.asarray(v, dtype=LD)
+    out = np.zeros(u.shape if points else (u.size, v.size), dtype=CLD)
+    for data, offset in fields:
+        data = np.asarray(data)
+        if data.size == 0:
+            continue
+        if data.ndim < 2:
+            raise ValueError('a one-element field has no finite embedding')
+        nr, nc = data.shape
+        x = np.arange(nr, dtype=LD) - (nr // 2) + LD(int(offset[0]))
+        y = np.arange(nc, dtype=LD) - (nc // 2) + LD(int(offset[1]))
+        p1 = LD(ar) * np.outer(u, x)
+        p2 = LD(ac) * np.outer(y, v)
+        E1 = np.exp(CLD(-2j) * PI * (p1 - np.rint(p1)))
+        E2 = np.exp(CLD(-2j) * PI * (p2 - np.rint(p2)))
+        if points:
+            out += np.einsum('px,xy,yp->p', E1, data.astype(CLD), E2)
+        else:
+            out += E1.dot(data.astype(CLD)).dot(E2)
+    return out * np.sqrt(np.abs(LD(ar) * LD(ac)))
+
+
+def fraunhofer_tol(fields, ar, ac, umax, vmax, c=64.0):
+    s = 0.0
+    xmax = ymax = 1.0
+    npx = 1
+    for data, offset in fields:
+        data = np.asarray(data)
+        if data.size == 0:
+            continue
+        s += float(np.sum(np.abs(data)))
+        xmax = max(xmax, data.shape[0] / 2 + abs(int(offset[0])) + 1)
+        ymax = max(ymax, data.shape[1] / 2 + abs(int(offset[1])) + 1)
+        npx = max(npx, data.size)
+    phase = 2 * np.pi * (abs(float(ar)) * xmax * (abs(umax) + 1) + abs(float(ac)) * ymax * (abs(vmax) + 1))
+    return c * EPS * (4.0 + phase + np.sqrt(npx)) * s * float(np.sqrt(abs(float(ar) * float(ac)))) + 1e-300
